@@ -12,6 +12,7 @@ INV = ["SideEffectsOnlyIfVerified", "ConfirmsAreRelevantInOrderOnce", "EveryProo
 def run(tier):
     res = Result("C04", tier, "model_checking")
     quick = tier == "quick"
+    sd = seed()
     states = transitions = 0
     total = 0
     runs = []
@@ -37,7 +38,9 @@ def run(tier):
             with open(p, "w") as fh:
                 fh.write(out)
             del out
-            rc, o, err = run_harness(binary, ["blk", "-in", p, "-workers", str(NCPU)], timeout=3000)
+            # the K=4 enumeration is an order of magnitude larger than K=3: every third case of it, chosen by the seed
+            smp = ["-sample", "3", "-seed", str(sd)] if K >= 4 else []
+            rc, o, err = run_harness(binary, ["blk", "-in", p, "-workers", str(NCPU)] + smp, timeout=3000 if quick else 9000)
             if rc != 0 or not o.strip():
                 raise Infra("blk harness failed: " + err[-2000:])
             r = json.loads(o)
